@@ -43,8 +43,10 @@ fn judge(specs: &Map<String, Value>, docs: &[&Value], act: &Value, conv: Option<
   let mut kinds = vec![];
   aggs::walk_kinds(specs, 0, &mut kinds);
   if kinds.iter().any(|(_, k)| k == "date_histogram") {
+    // the convention under which fewer date_histogram nodes themselves disagree, then fewer overall
     let ceil = with(true);
-    if ceil.len() < floor.len() {
+    let dh = |v: &Vec<Mismatch>| v.iter().filter(|m| m.kind == "date_histogram").count();
+    if (dh(&ceil), ceil.len()) < (dh(&floor), floor.len()) {
       return (ceil, true);
     }
   }
@@ -80,9 +82,9 @@ fn neutralise(specs: &Map<String, Value>, path: &[String], params: &[(&'static s
 
 /// The single-commit layout agrees with the oracle and this multi-commit layout does not:
 /// find the bucket limit / threshold of the failing node whose removal makes the layout agree.
-fn classify_multi(specs: &Map<String, Value>, m: &Mismatch, reader: &IndexReader, base: &Value, docs: &[&Value], conv: bool) -> (String, Value) {
+fn classify_multi(specs: &Map<String, Value>, m: &Mismatch, reader: &IndexReader, base: &Value, docs: &[&Value], conv: bool) -> (Vec<String>, Value) {
   let Some(node) = aggs::spec_at(specs, &m.path) else {
-    return (format!("multi-segment-only:{}", m.kind), json!(null));
+    return (vec![format!("multi-segment-only:{}", m.kind)], json!(null));
   };
   let present: Vec<(&'static str, Value)> = threshold_params(&m.kind)
     .into_iter()
@@ -100,18 +102,20 @@ fn classify_multi(specs: &Map<String, Value>, m: &Mismatch, reader: &IndexReader
   for (p, v) in present.iter() {
     let s = neutralise(specs, &m.path, &[(*p, v.clone())]);
     if !still_fails_here(&s) {
-      return (format!("{}.{}:applied-per-segment-before-merge", m.kind, p), json!({"neutralised": p}));
+      return (vec![format!("{}.{}:applied-per-segment-before-merge", m.kind, p)], json!({"neutralised": p}));
     }
   }
   if present.len() > 1 {
+    // each of the limits alone still leaves a difference, all of them together do not: both are
+    // applied per segment (one signature per (aggregation kind, parameter))
     let s = neutralise(specs, &m.path, &present);
     if !still_fails_here(&s) {
       let names: Vec<&str> = present.iter().map(|(p, _)| *p).collect();
-      return (format!("{}.{}:applied-per-segment-before-merge", m.kind, names.join("+")), json!({"neutralised": names}));
+      return (names.iter().map(|p| format!("{}.{}:applied-per-segment-before-merge", m.kind, p)).collect(), json!({"neutralised": names}));
     }
   }
   let names: Vec<&str> = present.iter().map(|(p, _)| *p).collect();
-  (format!("multi-segment-only:{}[{}]", m.kind, names.join(",")), json!(null))
+  (vec![format!("multi-segment-only:{}[{}]", m.kind, names.join(","))], json!(null))
 }
 
 /// The single-commit layout already disagrees with the independent computation.
@@ -178,8 +182,63 @@ fn classify_single(specs: &Map<String, Value>, m: &Mismatch, reader: &IndexReade
   }
 }
 
+/// `c12 --probe`: the minimal reproductions listed in /verif/findings.d/C12.json, run against the
+/// engine; prints expected (independent computation) and actual responses.
+fn probe() {
+  let dir = std::env::temp_dir().join(format!("c12-probe-{}", std::process::id()));
+  let mut n = 0;
+  let mut show = |name: &str, docs: Vec<Value>, layout: Vec<usize>, specs: Value| {
+    n += 1;
+    let p = dir.join(format!("p{n}"));
+    let _ = std::fs::remove_dir_all(&p);
+    let index = idx::build(&p, true, &aggs::schema_json(), &docs, &layout).expect("build");
+    let reader = index.reader().expect("reader");
+    let specs = specs.as_object().cloned().unwrap();
+    let req = json!({"query": {"type": "match_all"}, "limit": 1, "return_stored": false, "aggs": specs});
+    let act = run(&reader, &req).unwrap_or_else(|e| json!(e));
+    let refs: Vec<&Value> = docs.iter().collect();
+    let exp = Oracle { dh_ceil: false }.aggs(&specs, &refs);
+    let (mm, _) = judge(&specs, &refs, &act, None);
+    println!("== {name}\n   docs     {}\n   commits  {:?}\n   aggs     {}\n   expected {}\n   actual   {}\n   verdict  {}", json!(docs), layout, json!(specs), exp, act,
+      if mm.is_empty() { "agrees".to_string() } else { format!("DIFFERS: {}", mm[0].what) });
+  };
+  let k = |id: &str, k1: &str| json!({"_id": id, "k1": k1});
+  show("terms.min_doc_count (1 doc per commit)", vec![k("1", "a"), k("2", "a"), k("3", "a")], vec![1, 1, 1], json!({"t": {"type": "terms", "field": "k1", "min_doc_count": 2}}));
+  show("terms.min_doc_count (one commit)", vec![k("1", "a"), k("2", "a"), k("3", "a")], vec![3], json!({"t": {"type": "terms", "field": "k1", "min_doc_count": 2}}));
+  show("terms.size", vec![k("1", "a"), k("2", "a"), k("3", "b"), k("4", "b"), k("5", "b")], vec![3, 2], json!({"t": {"type": "terms", "field": "k1", "size": 1}}));
+  show("terms.size (one commit)", vec![k("1", "a"), k("2", "a"), k("3", "b"), k("4", "b"), k("5", "b")], vec![5], json!({"t": {"type": "terms", "field": "k1", "size": 1}}));
+  show("rare_terms.max_doc_count", vec![k("1", "a"), k("2", "a"), k("3", "a"), k("4", "b")], vec![2, 2], json!({"t": {"type": "rare_terms", "field": "k1", "max_doc_count": 1}}));
+  show("rare_terms.max_doc_count (one commit)", vec![k("1", "a"), k("2", "a"), k("3", "a"), k("4", "b")], vec![4], json!({"t": {"type": "rare_terms", "field": "k1", "max_doc_count": 1}}));
+  show("rare_terms.size", vec![k("1", "a"), k("2", "b"), k("3", "a")], vec![2, 1], json!({"t": {"type": "rare_terms", "field": "k1", "max_doc_count": 5, "size": 1}}));
+  show("rare_terms.size (one commit)", vec![k("1", "a"), k("2", "b"), k("3", "a")], vec![3], json!({"t": {"type": "rare_terms", "field": "k1", "max_doc_count": 5, "size": 1}}));
+  let x = |id: &str, v: f64| json!({"_id": id, "x1": v});
+  show("histogram.min_doc_count", vec![x("1", 1.0), x("2", 1.5)], vec![1, 1], json!({"h": {"type": "histogram", "field": "x1", "interval": 1.0, "min_doc_count": 2}}));
+  show("histogram.min_doc_count (one commit)", vec![x("1", 1.0), x("2", 1.5)], vec![2], json!({"h": {"type": "histogram", "field": "x1", "interval": 1.0, "min_doc_count": 2}}));
+  let t = |id: &str, v: i64| json!({"_id": id, "ts": v});
+  show("date_histogram.min_doc_count", vec![t("1", aggs::TS_BASE), t("2", aggs::TS_BASE)], vec![1, 1], json!({"h": {"type": "date_histogram", "field": "ts", "calendar_interval": "day", "min_doc_count": 2}}));
+  show("date_histogram.min_doc_count (one commit)", vec![t("1", aggs::TS_BASE), t("2", aggs::TS_BASE)], vec![2], json!({"h": {"type": "date_histogram", "field": "ts", "calendar_interval": "day", "min_doc_count": 2}}));
+  let q = |id: &str, v: i64| json!({"_id": id, "seq": v});
+  let th = json!({"h": {"type": "top_hits", "size": 2, "from": 1, "sort": [{"field": "seq", "order": "asc"}]}});
+  show("top_hits.from", vec![q("1", 0), q("2", 1), q("3", 2), q("4", 3)], vec![2, 2], th.clone());
+  show("top_hits.from (one commit)", vec![q("1", 0), q("2", 1), q("3", 2), q("4", 3)], vec![4], th);
+  show("composite histogram source over an i64 field", vec![json!({"_id": "1", "n1": 3, "x1": 3.0})], vec![1], json!({"c": {"type": "composite", "size": 10, "sources": [{"type": "histogram", "name": "s", "field": "n1", "interval": 1.0}]}}));
+  show("composite histogram source over an f64 field", vec![json!({"_id": "1", "n1": 3, "x1": 3.0})], vec![1], json!({"c": {"type": "composite", "size": 10, "sources": [{"type": "histogram", "name": "s", "field": "x1", "interval": 1.0}]}}));
+  let ext = json!({"min": aggs::rfc3339(aggs::TS_BASE + 7_200_000, 0), "max": aggs::rfc3339(aggs::TS_BASE + 2 * 86_400_000 + 7_200_000, 0)});
+  show("date_histogram calendar_interval + offset + extended_bounds", vec![t("1", aggs::TS_BASE + 7_200_000)], vec![1],
+    json!({"h": {"type": "date_histogram", "field": "ts", "calendar_interval": "day", "offset": "1h", "min_doc_count": 0, "extended_bounds": ext}}));
+  show("date_histogram calendar_interval + extended_bounds, no offset", vec![t("1", aggs::TS_BASE + 7_200_000)], vec![1],
+    json!({"h": {"type": "date_histogram", "field": "ts", "calendar_interval": "day", "min_doc_count": 0, "extended_bounds": ext}}));
+  show("(not judged) fixed_interval key convention", vec![t("1", aggs::TS_BASE + 7_200_000)], vec![1], json!({"h": {"type": "date_histogram", "field": "ts", "fixed_interval": "1d"}}));
+  show("(not judged) range `to` bound", vec![x("1", 10.0)], vec![1], json!({"r": {"type": "range", "field": "x1", "keyed": false, "ranges": [{"from": 0.0, "to": 10.0}, {"from": 10.0, "to": 20.0}]}}));
+  let _ = std::fs::remove_dir_all(&dir);
+}
+
 fn main() {
   let args: Vec<String> = std::env::args().skip(1).collect();
+  if args.iter().any(|a| a == "--probe") {
+    probe();
+    return;
+  }
   let mut ctx = Ctx::from_args("C12", "exploration", &args);
   ctx.rule = "per case: a seeded corpus of 20-200 documents (single/multi-valued/missing keyword, i64, f64 fast fields, zipf keys) is indexed in-memory under 4-5 commit layouts (one commit; 2-6 commits; ~1 document per commit; commits with interleaved deletes, re-adds, upserts and ghost documents; compacted); 15-40 requests (match_all / term query / request filter, limit and execution strategy varied) carry random aggregation forests up to depth 3. evaluations = (request, layout) responses compared with the independent computation plus (request, layout) responses compared with the single-commit response. A request is non-trivial (counted once by hash of corpus + request) when it matches at least one document and at least one layout has >= 2 segments.".into();
   ctx.assumptions = vec![
@@ -314,17 +373,19 @@ fn main() {
             l.count("mismatch_also_on_single_commit_layout", 1);
             continue;
           }
-          let (sig, extra) = if li > 0 {
+          let (sigs, extra) = if li > 0 {
             classify_multi(&specs, m, reader, &base, &matched, c)
           } else {
-            (classify_single(&specs, m, reader, &base, &matched, c), json!(null))
+            (vec![classify_single(&specs, m, reader, &base, &matched, c)], json!(null))
           };
-          l.fail(
-            sig,
-            format!("{} at {} differs from the independent computation on layout {}: {}", m.kind, m.path.join("/"), plan.name, m.what),
-            case(json!({"path": m.path, "what": m.what, "single_commit_layout_agrees_here": !in_single, "classifier": extra,
-                        "node": aggs::spec_at(&specs, &m.path)})),
-          );
+          for sig in sigs {
+            l.fail(
+              sig,
+              format!("{} at {} differs from the independent computation on layout {}: {}", m.kind, m.path.join("/"), plan.name, m.what),
+              case(json!({"path": m.path, "what": m.what, "single_commit_layout_agrees_here": !in_single, "classifier": extra,
+                          "node": aggs::spec_at(&specs, &m.path)})),
+            );
+          }
         }
         if mms.is_empty() {
           l.count("responses_fully_agreeing_with_oracle", 1);
